@@ -8,10 +8,10 @@ WT=/tmp/confirm_$NAME
 rm -rf $WT; git -C /repo worktree prune; git -C /repo worktree add -q $WT HEAD || exit 2
 cd $WT
 PYTHONPATH=$WT/src timeout 600 /venv/bin/python $SRC/demo$K.py > /tmp/confirm_$NAME.clean.log 2>&1; CLEAN=$?
-PYTHONPATH=$WT/src timeout 1500 /venv/bin/python -m pytest -q -p no:cacheprovider --timeout=900 $TESTS 2>&1 | grep -a "^FAILED\|passed\|failed" | sed 's/ in [0-9.]*s.*//; s/^=* //' > /tmp/confirm_$NAME.tests_clean.log
+PYTHONPATH=$WT/src timeout 1500 /venv/bin/python -m pytest -q -p no:cacheprovider --timeout=900 $TESTS 2>&1 | grep -a "^FAILED tests\|passed\|failed" | sed 's/ in [0-9.]*s.*//; s/^=* //; s/ - .*//' | sort > /tmp/confirm_$NAME.tests_clean.log
 git apply $SRC/patch$K.diff || { echo "patch does not apply"; exit 2; }
 PYTHONPATH=$WT/src timeout 600 /venv/bin/python $SRC/demo$K.py > /tmp/confirm_$NAME.patched.log 2>&1; PATCHED=$?
-PYTHONPATH=$WT/src timeout 1500 /venv/bin/python -m pytest -q -p no:cacheprovider --timeout=900 $TESTS 2>&1 | grep -a "^FAILED\|passed\|failed" | sed 's/ in [0-9.]*s.*//; s/^=* //' > /tmp/confirm_$NAME.tests_patched.log
+PYTHONPATH=$WT/src timeout 1500 /venv/bin/python -m pytest -q -p no:cacheprovider --timeout=900 $TESTS 2>&1 | grep -a "^FAILED tests\|passed\|failed" | sed 's/ in [0-9.]*s.*//; s/^=* //; s/ - .*//' | sort > /tmp/confirm_$NAME.tests_patched.log
 echo "demo clean exit=$CLEAN patched exit=$PATCHED"
 if diff /tmp/confirm_$NAME.tests_clean.log /tmp/confirm_$NAME.tests_patched.log > /dev/null; then echo "tests: same results"; SAME=yes; else echo "tests: DIFFER"; diff /tmp/confirm_$NAME.tests_clean.log /tmp/confirm_$NAME.tests_patched.log | head; SAME=no; fi
 tail -1 /tmp/confirm_$NAME.tests_clean.log
